@@ -232,6 +232,7 @@ class TreeGen:
         self.rng = rng
         self.vocab = vocab or {k: vocabulary(k) for k in KINDS}
         self.set_log = []
+        self.shapes = []
         self.n = 0
         self.cls = sliver_classes()
         self.types = type_enums()
@@ -319,6 +320,7 @@ class TreeGen:
                 except ValueError:      # interface/service names derived from a component name they do not admit
                     name = 'c' + ''.join(rng.choice('abcXYZ019-_.') for _ in range(rng.randrange(1, 12)))
             s.node_id = self.nid('comp')
+            self.shapes.append('catalogue-component')
             for p in ('name', 'type', 'model', 'details'):
                 self.set_log.append(('component', p))
             # catalogue-given ids are random uuids: replace them, then decorate everything with more properties
@@ -333,6 +335,7 @@ class TreeGen:
             return s
         s = self.cls['component']()
         s.node_id = self.nid('comp')
+        self.shapes.append('handbuilt-component')
         self.fill(s, 'component', mode, name=name)
         nns = rng.choice([0, 1, 1, 2])
         if nns > 0 or rng.random() < 0.1:
